@@ -353,6 +353,7 @@ func checkOptionReadSites(r *Run, prog *Program, a *Anchors, pfx string) {
 		fieldCtor[f] = ctor
 	}
 	n := 0
+	applied := map[string]map[*ssa.Function]bool{}
 	for _, fa := range prog.FieldAccesses(prog.ModuleFuncs()) {
 		if fa.Struct != ot || fa.Kind != "read" {
 			continue
@@ -371,6 +372,25 @@ func checkOptionReadSites(r *Run, prog *Program, a *Anchors, pfx string) {
 			// the option's own closure / setting method may read its field (the bindings are appended to)
 			if strings.HasPrefix(fa.Fn.Name(), "With") || (fa.Fn.Parent() != nil && strings.HasPrefix(fa.Fn.Parent().Name(), "With")) {
 				okR = true
+			}
+			if !okR {
+				// … whatever form it has: a function that runs while the option is applied
+				if applied[ctor] == nil {
+					applied[ctor] = map[*ssa.Function]bool{}
+					if cf := prog.BexprSSA.Func(ctor); cf != nil {
+						for _, op := range optionEffect(prog, cf) {
+							if op.opaque {
+								continue
+							}
+							for _, ev := range op.sm.Events() {
+								if ev.In != nil && ev.In != cf {
+									applied[ctor][ev.In] = true
+								}
+							}
+						}
+					}
+				}
+				okR = applied[ctor][fa.Fn]
 			}
 		}
 		r.Check(pfx+".option-read-sites", fa.Fn.Name()+":read:"+fa.Field, prog.pos(fa.Instr.Pos()), okR, "the option set by "+ctor+" is read in "+fa.Fn.Name()+": it must take effect only where the lookup is configured (tag name, hook, unknown value, bindings) or where the evaluator is created (budget)")
